@@ -189,7 +189,7 @@ type isoCase struct {
 	Query   string    `json:"query"`
 	Spec    inputSpec `json:"spec"`
 	Var     univ.V    `json:"var"`     // value of $v
-	History []string  `json:"history"` // same | fresh | other | partial:<k>
+	History []string  `json:"history"` // same | fresh | compact | other | partial:<k>
 }
 
 type frozen struct {
@@ -454,6 +454,16 @@ func check(c isoCase) (msg, discard string) {
 			in2, _ := c.Spec.build()
 			vals, errText, budget, m, hd = runKeep(code, in2, univ.Copy(c.Var.X), -1)
 			handles = append(handles, hd)
+		case h == "compact":
+			// an equal input whose arrays have no hidden capacity (or, when the
+			// first input had none, three hidden slots each)
+			in2, _ := c.Spec.build()
+			in2 = univ.Copy(in2)
+			if c.Spec.Spare == 0 {
+				in2 = respare(in2)
+			}
+			vals, errText, budget, m, hd = runKeep(code, in2, univ.Copy(c.Var.X), -1)
+			handles = append(handles, hd)
 		case h == "other":
 			_, _, _, m, hd = runKeep(code, other[i%2], univ.Copy(c.Var.X), -1)
 			handles = append(handles, hd)
@@ -588,8 +598,28 @@ func specGen() *rapid.Generator[inputSpec] {
 	})
 }
 
+// respare rebuilds every array of v with three hidden slots beyond its length.
+func respare(v any) any {
+	switch v := v.(type) {
+	case []any:
+		if v == nil {
+			return v
+		}
+		w := make([]any, len(v), len(v)+3)
+		for i, x := range v {
+			w[i] = respare(x)
+		}
+		return w
+	case map[string]any:
+		for k, x := range v {
+			v[k] = respare(x)
+		}
+	}
+	return v
+}
+
 func historyGen() *rapid.Generator[[]string] {
-	return rapid.SliceOfN(rapid.SampledFrom([]string{"same", "same", "fresh", "other", "partial:0", "partial:1", "partial:2"}), 1, 5)
+	return rapid.SliceOfN(rapid.SampledFrom([]string{"same", "same", "fresh", "compact", "other", "partial:0", "partial:1", "partial:2"}), 1, 5)
 }
 
 func replayCase(sub string, raw json.RawMessage) string {
@@ -716,7 +746,10 @@ func TestC05(t *testing.T) {
 	for i := range longVar {
 		longVar[i] = (i * 29) % 31
 	}
-	vars := rapid.OneOf(rapid.Just[any](longVar), rapid.Just[any]([]any{3, 1, 2}), rapid.Just[any]([]any{[]any{1}, []any{2, 3}}), rapid.Just[any](map[string]any{"a": []any{1, 2}, "b": map[string]any{"c": 1}}), gen.Value(gen.Opt{MaxDepth: 2, MaxWidth: 3, SmallInts: true}))
+	vars := rapid.OneOf(rapid.Just[any](longVar), rapid.Just[any]([]any{3, 1, 2}), rapid.Just[any]([]any{[]any{1}, []any{2, 3}}), rapid.Just[any](map[string]any{"a": []any{1, 2}, "b": map[string]any{"c": 1}}),
+		// slice paths with bounds that are not Go ints
+		rapid.Just[any](map[string]any{"start": 0.5, "end": 1.5}), rapid.Just[any](map[string]any{"start": json.Number("0.5"), "end": json.Number("2")}), rapid.Just[any](map[string]any{"start": big.NewInt(1), "end": nil}), rapid.Just[any](map[string]any{"start": nil, "end": 1.7}),
+		gen.Value(gen.Opt{MaxDepth: 2, MaxWidth: 3, SmallInts: true}))
 
 	// embedded values other than literals (data imports, environment, module metadata)
 	embInputs := rapid.OneOf(vars, rapid.SampledFrom([]any{nil, 1, "a", []any{[]any{2, 1}, []any{1}}, map[string]any{"a": []any{1, 2}, "b": map[string]any{"c": nil, "d": []any{map[string]any{"e": 1}}}}}))
